@@ -468,7 +468,7 @@ func init() {
 		ID: "C12", Level: "model_checking",
 		Rule: "order part: every flat path (child/attribute/self steps, <= 3-4 steps, relative and absolute, also with the predicates C02/C03 allow) and every single predicate-free descendant step, on every document of T(<=N) and the multi-parent universe from every context, must yield exactly the reference sequence (document order, no repeats) through Select and through Evaluate. protocol part: the NodeIterator of every node-set expression of the slices S1, S2, P1, U2 is explored as a state machine — states are (results consumed, exhausted) positions, transitions are MoveNext/Current calls; the walk with 3 extra MoveNext after the first false, and (R2) every operation word over {MoveNext, Current} up to length len+3, are checked against the sequence model, plus seq(Evaluate)=seq(Select), count(E)=len, reverse(E)=reversed, the count and the Evaluate sequence asked a second time of the same compiled expression; wrappers reverse(E), (E), (E)[true()], (E)[n], (E)[last()], (E)[true()][1], step[bool][n] go through the same walk; non-trivial = non-empty sequence; distinct = distinct expressions",
 		Assumptions:    []string{"hand-written reference evaluator (order part)", "lawful NodeNavigator", "bounded trees; words bounded by len+3"},
-		Budget:         budget(90*time.Second, 30*time.Minute),
+		Budget:         budget(240*time.Second, 30*time.Minute),
 		MinRefOutcomes: 2,
 		Spaces:         c12Spaces,
 	})
